@@ -26,6 +26,7 @@ type PropDef struct {
 	Technique  string
 	Level      string // evidence level (default "proof")
 	Notes      []string
+	TimeoutS   int // per-query solver timeout of the quick tier (default 10)
 }
 
 func loadProp(id string) (*PropDef, error) {
@@ -64,6 +65,8 @@ func loadProp(id string) (*PropDef, error) {
 			p.Technique = rest
 		case "note":
 			p.Notes = append(p.Notes, rest)
+		case "timeout":
+			fmt.Sscanf(rest, "%d", &p.TimeoutS)
 		default:
 			return nil, fmt.Errorf("%s:%d: unknown keyword %q", path, n+1, kw)
 		}
@@ -184,6 +187,9 @@ func runCheck(id, tier string, seed int, overlay map[string][]byte, writeEvidenc
 	e.TmpDir = newTmpDir()
 	defer os.RemoveAll(e.TmpDir)
 	e.TimeoutS = 10
+	if prop.TimeoutS > 0 {
+		e.TimeoutS = prop.TimeoutS
+	}
 	if tier == "thorough" {
 		e.TimeoutS = 60
 		e.Agree = true
